@@ -336,13 +336,16 @@ namespace nmtools::utils
             else if constexpr (meta::is_index_array_v<T> && meta::is_index_array_v<U>) {
                 bool equal = true;
                 // TODO: static assert whenever possible
-                // NOTE: use assert instead of exception, to support compile with -fno-exceptions
-                nmtools_cassert ( (nm_size_t)len(t)==(nm_size_t)len(u)
-                    , "mismatched dimension"
-                );
+                // NOTE: index arrays of different length are different: report false
+                // (never compare past the end of the shorter one, with or without NDEBUG)
                 // prefer fixed size for indexing to allow constant index
                 if constexpr (meta::is_fixed_index_array_v<T>) {
                     constexpr auto N = meta::fixed_index_array_size_v<T>;
+                    if constexpr (!meta::is_fixed_index_array_v<U>) {
+                        if ((nm_size_t)len(u) != (nm_size_t)N) {
+                            return false;
+                        }
+                    }
                     using t_t = meta::get_element_or_common_type_t<T>;
                     using u_t = meta::get_element_or_common_type_t<U>;
                     using common_t = meta::promote_index_t<t_t,u_t>;
@@ -355,6 +358,9 @@ namespace nmtools::utils
                     constexpr auto N = meta::fixed_index_array_size_v<U>;
                     using t_t = meta::get_element_or_common_type_t<T>;
                     using u_t = meta::get_element_or_common_type_t<U>;
+                    if ((nm_size_t)len(t) != (nm_size_t)N) {
+                        return false;
+                    }
                     meta::template_for<N>([&](auto i){
                         auto t_i = at(t,i);
                         auto u_i = at(u,i);
@@ -366,6 +372,9 @@ namespace nmtools::utils
                 else {
                     using t_t = meta::get_element_or_common_type_t<T>;
                     using u_t = meta::get_element_or_common_type_t<U>;
+                    if ((nm_size_t)len(t) != (nm_size_t)len(u)) {
+                        return false;
+                    }
                     for (size_t i=0; i<len(t); i++) {
                         auto t_i = at(t,i);
                         auto u_i = at(u,i);
